@@ -14,9 +14,10 @@ RULE = ("margin (L1, real SifchainApp, real margin+clp keepers and message serve
         "collateral directions, amounts 0..3x pool depth, leverage 1..max+1, SHORT, unknown pool, both-native, both-non-native, same asset "
         "twice), Close (owner, outsider, unknown id), AdminClose/ForceClose (administrator and non-administrators, with/without fund cut), "
         "BeginBlocker every block (epoch boundaries with interest, liquidations), real clp Swap/AddLiquidity/RemoveLiquidity moving the "
-        "price by up to 60% of depth, administrator parameter changes (including fund addresses set to a module account, safety factor "
+        "price by up to 60% of depth, administrator parameter changes (including fund addresses set to a blocked recipient — the margin module account, the sdk fee_collector module account or the "
+        "clp module account itself, the sender of every fund payment —, safety factor "
         "1.5/2/10/100, the real MsgAdminCloseAll with and without the fund cut, either or both fund addresses left out of MsgUpdateParams = stored empty, fund percentages 0/0.1/0.5/1, all while positions "
-        "are open; the message is encoded, decoded, ValidateBasic'ed and sent through the message server), plus 13 directed histories per "
+        "are open; the message is encoded, decoded, ValidateBasic'ed and sent through the message server), plus 14 directed histories per "
         "run (the configurations of F14/F14b/F14c; all ten pools at once with positions on both sides of each, two epoch hooks, every "
         "position closed; safety factor exactly 0 with positions pushed below health 1.05 and 1 by a swap, then 10^-18, 1, 1.05, 100 at "
         "successive epoch hooks; two positions of opposite direction in one 10^24/10^24 pool, the earlier (address order) large and under "
@@ -26,7 +27,8 @@ RULE = ("margin (L1, real SifchainApp, real margin+clp keepers and message serve
         "leveraged opens locking the pool (a further open refused) and owner closes while it is locked, mid-epoch and at a boundary, "
         "both collateral sides; opens SOLVED to land exactly on the safety factor (health == 1.05 resp. 1.5, found by trial opens on "
         "discarded branches with the factor set to 0 and the stored position valued by CLPSwap; leverage max 20) with the neighbours one "
-        "unit of collateral above and below, both collateral sides; interest fund address empty: hook, mid-epoch Close, AdminClose; force-close fund address empty: AdminClose "
+        "unit of collateral above and below, both collateral sides; both fund addresses = the clp module account with fund percentages 0.5 through an interest epoch, a "
+        "mid-epoch Close, AdminClose with the fund cut and AdminCloseAll; interest fund address empty: hook, mid-epoch Close, AdminClose; force-close fund address empty: AdminClose "
         "with/without fund cut, liquidation).  After every operation: full state dump compared "
         "with the model (pools: 13 fields, positions: 13 fields, counters, 7 accounts x 3 denoms) and MarginOK judged on the "
         "implementation's dump per pool with exact symbol matching, and the backing identity of C01 restricted to this world (c01.marginbacking: for every "
